@@ -24,6 +24,8 @@ CLAUSES = {
     'EntityOK/text': "EntityOK: replacement does not decode to the reference's text (text)",
     'EntityOK/markup': 'EntityOK: literal markup character as replacement in text',
     'EntityOK/rev': 'EntityOK: reverse entry does not decode to the character it replaces',
+    'RevProbe/text': 'EntityOK(probe): numeric reference to a reverse-mapped character decodes differently',
+    'RevProbe/raw': 'EntityOK(probe): a character XML does not allow is written literally',
     'EntProbe/parse': 'EntityOK(probe): output no longer parses',
     'EntProbe/text': 'EntityOK(probe): decoded text differs',
     'EntProbe/attr': 'EntityOK(probe): decoded attribute value differs',
@@ -53,7 +55,7 @@ CLAUSES = {
 
 DIRECT = ('entity', 'reventity', 'colourname', 'colourhex', 'tagtrait', 'attrtrait', 'zerounit', 'jsmime',
           'svgcolourattr', 'hash')
-PROBES = ('tagprobe', 'rawprobe', 'attrprobe', 'unitprobe', 'colourprobe', 'svgattrprobe', 'entprobe')
+PROBES = ('tagprobe', 'rawprobe', 'attrprobe', 'unitprobe', 'colourprobe', 'svgattrprobe', 'entprobe', 'revprobe')
 
 
 def subject(e):
@@ -93,6 +95,10 @@ def subject(e):
         return 'entity:%s:&%s' % (e['lang'], e['name'])
     if k == 'refcolour':
         return 'refcolour:%s' % e['name']
+    if k == 'revprobe':
+        return 'revchar:%s:%s:%d' % (e['lang'], e['where'], e['ch'])
+    if k == 'tablenote':
+        return 'note:%s.%s' % (e['table'], e['map'])
     raise vlib.Infra('unknown line kind %r' % k)
 
 
@@ -240,6 +246,10 @@ def run(ctx):
     per_kind = {}
     for e in objs:
         per_kind[e['kind']] = per_kind.get(e['kind'], 0) + 1
+    notes = [e for e in objs if e['kind'] == 'tablenote']
+    for e in notes:
+        vlib.log('NOTE: table entry not evaluated by the source reader (not audited):', e['table'], e['map'], e['text'], '-', e['why'])
+    ctx.coverage['table_entries_not_evaluated'] = [dict(map='%s.%s' % (e['table'], e['map']), text=e['text']) for e in notes]
     entries = set()
     nontrivial = set()
     for e in objs:
